@@ -39,6 +39,7 @@ Proof. exact configure_is_static. Qed.
 
 Theorem C02_configured_bounds :
   forall a lo hi ck ctx,
+    cfg_fails ck (val_count (cval ctx)) = false ->      (* (try_configure whose closure returns Err: see C15) *)
     mk_iter (IRepCfg a lo hi ck) ctx
     = SCfg 0 (cfg_lo ck lo (val_count (cval ctx))) (cfg_hi ck hi (val_count (cval ctx))).
 Proof. exact configured_bounds. Qed.
